@@ -11,6 +11,7 @@ from sim.loop import SimDeadlock, SimBudget, HarnessError
 
 EPS = 2.0 ** -20
 HOST = "10.0.0.1"
+HOST6 = "fd00::10"          # an inverter reached over IPv6 (worlds register the same device under it)
 HOSTNAME = "inverter.lan"   # resolves to HOST in worlds that register it (SimNet.add_host)
 UDP_PORT = 8899
 TCP_PORT = 502
